@@ -11,7 +11,8 @@ binary32 evaluation for ALL inputs (2^24, 2^30, 2^48 triples — no enumeration)
 * `f32_err`: every channel of `yuvF32` is within `10·2^-24` of the clamped ideal value (normalised units);
 * `fpn_adm`: composing with `fp::n8`/`fp::n16` (all 2^32 patterns, `Proofs/ConvF32Thr.lean`): the code is admissible
   (`Spec.admissible`: `|code/max − ideal| ≤ 1/(2·max) + 2^-12/255`) whenever the float is within `τ − 2^-24` of the ideal;
-* `n8_direct`: the direct `(sum + 0.5) as u8` of `yuv8::n8`.
+* `n8_direct`: the direct `(sum + 0.5) as u8` of `yuv8::n8`;
+* `sat_f32`, `sat_n8_direct`, `yuvN_sat`: exact saturation (unclamped ideal ≥ 1 + 2^-20 ⇒ maximum, ≤ −2^-20 ⇒ 0).
 Core only.
 -/
 import DdsModel.Proofs.F32ErrOps
@@ -196,6 +197,7 @@ pattern in `0 … 1.0` or `−0.0`, and within `2^(E−25) + Es·k + Ms·δ` of 
 theorem norm_step (r k : Nat) (hr : FinP r) (hk : FinP k) (S G Es Ms δ : Rat)
     (h1 : Near (toRat r) S Es) (hS1 : -Ms ≤ S) (hS2 : S ≤ Ms) (hF : 0 ≤ toRat k) (hδ : Near (toRat k) G δ)
     (E W' : Nat) (hE : E ≤ 127) (hW' : W' = 2 ^ E) (hb : (Ms + Es) * toRat k < (W' : Rat)) :
+    (FinP (fmul r k) ∧ Near (toRat (fmul r k)) (S * G) ((W' : Rat) / 33554432 + (Es * toRat k + Ms * δ))) ∧
     FinP (fclamp (fmul r k) 0 one) ∧ (fclamp (fmul r k) 0 one ≤ one ∨ fclamp (fmul r k) 0 one = signBit) ∧
     Near (toRat (fclamp (fmul r k) 0 one)) (clamp01 (S * G)) ((W' : Rat) / 33554432 + (Es * toRat k + Ms * δ)) := by
   have hr1 : -(Ms + Es) ≤ toRat r := by unfold Near at h1; grind
@@ -205,15 +207,20 @@ theorem norm_step (r k : Nat) (hr : FinP r) (hk : FinP k) (S G Es Ms δ : Rat)
   rw [Rat.neg_mul] at p1
   obtain ⟨fm, nm⟩ := fmul_ulp r k hr hk E W' hE hW' (by grind) (by grind)
   have n2 := mul_near (toRat r) S (toRat k) G Es Ms δ h1 hS1 hS2 hF hδ
-  have n3 := clamp01_near _ _ _ (near_trans _ _ _ _ _ nm n2)
+  have nraw := near_trans _ _ _ _ _ nm n2
+  have n3 := clamp01_near _ _ _ nraw
   obtain ⟨c1, c2, c3⟩ := fclamp01 (fmul r k) fm
   rw [← c3] at n3
-  exact ⟨c1, c2, n3⟩
+  exact ⟨⟨fm, nraw⟩, c1, c2, n3⟩
+
 /-! ### the F32 outputs -/
 
 /-- the property of one output channel: finite, a pattern in `0 … 1.0` or `−0.0`, within `eps` of `q` -/
 def ChanOk (out : Nat) (q eps : Rat) : Prop :=
   FinP out ∧ (out ≤ one ∨ out = signBit) ∧ Near (toRat out) q eps
+
+/-- the value before the clamp: finite and within `eps` of the unclamped ideal -/
+def ChanRaw (x : Nat) (raw eps : Rat) : Prop := FinP x ∧ Near (toRat x) raw eps
 
 set_option maxHeartbeats 1000000 in
 /-- every channel of `yuvN::f32`, all inputs: within `10·2^-24` of the clamped ideal value.  `F` is the value of the
@@ -228,13 +235,17 @@ theorem f32_err (n W oy oc k y u v : Nat) (F G δ : Rat) (hW : W = 2 ^ n) (hn : 
     (eR : 2 / 33554432 + (7 * (W : Rat) / 33554432 * F + 19 / 10 * (W : Rat) * δ) ≤ 10 / 16777216)
     (eG : 2 / 33554432 + (21 * (W : Rat) / 67108864 * F + 7 / 4 * (W : Rat) * δ) ≤ 10 / 16777216)
     (eB : 4 / 33554432 + (11 * (W : Rat) / 33554432 * F + 11 / 5 * (W : Rat) * δ) ≤ 10 / 16777216) :
-    ChanOk (fclamp (fmul (yuvSums oy oc y u v).1 k) 0 one)
-      (clamp01 (idealR (((y : Int) - (oy : Int) : Int) : Rat) (((v : Int) - (oc : Int) : Int) : Rat) * G)) (10 / 16777216) ∧
-    ChanOk (fclamp (fmul (yuvSums oy oc y u v).2.1 k) 0 one)
+    (ChanRaw (fmul (yuvSums oy oc y u v).1 k) (idealR (((y : Int) - (oy : Int) : Int) : Rat) (((v : Int) - (oc : Int) : Int) : Rat) * G) (10 / 16777216) ∧
+      ChanOk (fclamp (fmul (yuvSums oy oc y u v).1 k) 0 one)
+      (clamp01 (idealR (((y : Int) - (oy : Int) : Int) : Rat) (((v : Int) - (oc : Int) : Int) : Rat) * G)) (10 / 16777216)) ∧
+    (ChanRaw (fmul (yuvSums oy oc y u v).2.1 k) (idealG (((y : Int) - (oy : Int) : Int) : Rat) (((u : Int) - (oc : Int) : Int) : Rat)
+        (((v : Int) - (oc : Int) : Int) : Rat) * G) (10 / 16777216) ∧
+      ChanOk (fclamp (fmul (yuvSums oy oc y u v).2.1 k) 0 one)
       (clamp01 (idealG (((y : Int) - (oy : Int) : Int) : Rat) (((u : Int) - (oc : Int) : Int) : Rat)
-        (((v : Int) - (oc : Int) : Int) : Rat) * G)) (10 / 16777216) ∧
-    ChanOk (fclamp (fmul (yuvSums oy oc y u v).2.2 k) 0 one)
-      (clamp01 (idealB (((y : Int) - (oy : Int) : Int) : Rat) (((u : Int) - (oc : Int) : Int) : Rat) * G)) (10 / 16777216) := by
+        (((v : Int) - (oc : Int) : Int) : Rat) * G)) (10 / 16777216)) ∧
+    (ChanRaw (fmul (yuvSums oy oc y u v).2.2 k) (idealB (((y : Int) - (oy : Int) : Int) : Rat) (((u : Int) - (oc : Int) : Int) : Rat) * G) (10 / 16777216) ∧
+      ChanOk (fclamp (fmul (yuvSums oy oc y u v).2.2 k) 0 one)
+      (clamp01 (idealB (((y : Int) - (oy : Int) : Int) : Rat) (((u : Int) - (oc : Int) : Int) : Rat) * G)) (10 / 16777216)) := by
   obtain ⟨fr, fg, fb, sr, sg, sb⟩ := sums_err n W oy oc y u v hW hn hoy hoc hy hu hv
   obtain ⟨c1, c2⟩ := int_bounds y oy W 16 hy hoy (by decide)
   obtain ⟨d1, d2⟩ := int_bounds u oc W 2 hu hoc (by decide)
@@ -251,18 +262,18 @@ theorem f32_err (n W oy oc k y u v : Nat) (F G δ : Rat) (hW : W = 2 ^ n) (hn : 
   have c4' : ((4 : Nat) : Rat) = 4 := rfl
   subst vk
   refine ⟨?_, ?_, ?_⟩
-  · obtain ⟨o1, o2, o3⟩ := norm_step _ k fr hk (idealR c e) G _ (19 / 10 * (W : Rat)) δ sr
+  · obtain ⟨o0, o1, o2, o3⟩ := norm_step _ k fr hk (idealR c e) G _ (19 / 10 * (W : Rat)) δ sr
       (by unfold idealR; grind) (by unfold idealR; grind) hF hδ 1 2 (by decide) (by decide) (by rw [c2']; exact nR)
-    rw [c2'] at o3
-    exact ⟨o1, o2, near_mono _ _ _ _ o3 eR⟩
-  · obtain ⟨o1, o2, o3⟩ := norm_step _ k fg hk (idealG c d e) G _ (7 / 4 * (W : Rat)) δ sg
+    rw [c2'] at o3 o0
+    exact ⟨⟨o0.1, near_mono _ _ _ _ o0.2 eR⟩, o1, o2, near_mono _ _ _ _ o3 eR⟩
+  · obtain ⟨o0, o1, o2, o3⟩ := norm_step _ k fg hk (idealG c d e) G _ (7 / 4 * (W : Rat)) δ sg
       (by unfold idealG; grind) (by unfold idealG; grind) hF hδ 1 2 (by decide) (by decide) (by rw [c2']; exact nG)
-    rw [c2'] at o3
-    exact ⟨o1, o2, near_mono _ _ _ _ o3 eG⟩
-  · obtain ⟨o1, o2, o3⟩ := norm_step _ k fb hk (idealB c d) G _ (11 / 5 * (W : Rat)) δ sb
+    rw [c2'] at o3 o0
+    exact ⟨⟨o0.1, near_mono _ _ _ _ o0.2 eG⟩, o1, o2, near_mono _ _ _ _ o3 eG⟩
+  · obtain ⟨o0, o1, o2, o3⟩ := norm_step _ k fb hk (idealB c d) G _ (11 / 5 * (W : Rat)) δ sb
       (by unfold idealB; grind) (by unfold idealB; grind) hF hδ 2 4 (by decide) (by decide) (by rw [c4']; exact nB)
-    rw [c4'] at o3
-    exact ⟨o1, o2, near_mono _ _ _ _ o3 eB⟩
+    rw [c4'] at o3 o0
+    exact ⟨⟨o0.1, near_mono _ _ _ _ o0.2 eB⟩, o1, o2, near_mono _ _ _ _ o3 eB⟩
 
 theorem k255_val : FinP k255 ∧ toRat k255 = 8421505 / 2147483648 := by decide +kernel
 theorem k1023_val : FinP k1023 ∧ toRat k1023 = 1049601 / 1073741824 := by decide +kernel
@@ -271,39 +282,51 @@ theorem k65535_val : FinP k65535 ∧ toRat k65535 = 65537 / 4294967296 := by dec
 
 /-- `yuv8::f32`, all inputs -/
 theorem f32_err8 (y u v : Nat) (hy : y < 256) (hu : u < 256) (hv : v < 256) :
-    ChanOk (fclamp (fmul (yuvSums 16 128 y u v).1 k255) 0 one)
-      (clamp01 (idealR (((y : Int) - (16 : Nat) : Int) : Rat) (((v : Int) - (128 : Nat) : Int) : Rat) * (1 / 255))) (10 / 16777216) ∧
-    ChanOk (fclamp (fmul (yuvSums 16 128 y u v).2.1 k255) 0 one)
+    (ChanRaw (fmul (yuvSums 16 128 y u v).1 k255) (idealR (((y : Int) - (16 : Nat) : Int) : Rat) (((v : Int) - (128 : Nat) : Int) : Rat) * (1 / 255)) (10 / 16777216) ∧
+      ChanOk (fclamp (fmul (yuvSums 16 128 y u v).1 k255) 0 one)
+      (clamp01 (idealR (((y : Int) - (16 : Nat) : Int) : Rat) (((v : Int) - (128 : Nat) : Int) : Rat) * (1 / 255))) (10 / 16777216)) ∧
+    (ChanRaw (fmul (yuvSums 16 128 y u v).2.1 k255) (idealG (((y : Int) - (16 : Nat) : Int) : Rat) (((u : Int) - (128 : Nat) : Int) : Rat)
+        (((v : Int) - (128 : Nat) : Int) : Rat) * (1 / 255)) (10 / 16777216) ∧
+      ChanOk (fclamp (fmul (yuvSums 16 128 y u v).2.1 k255) 0 one)
       (clamp01 (idealG (((y : Int) - (16 : Nat) : Int) : Rat) (((u : Int) - (128 : Nat) : Int) : Rat)
-        (((v : Int) - (128 : Nat) : Int) : Rat) * (1 / 255))) (10 / 16777216) ∧
-    ChanOk (fclamp (fmul (yuvSums 16 128 y u v).2.2 k255) 0 one)
-      (clamp01 (idealB (((y : Int) - (16 : Nat) : Int) : Rat) (((u : Int) - (128 : Nat) : Int) : Rat) * (1 / 255))) (10 / 16777216) :=
+        (((v : Int) - (128 : Nat) : Int) : Rat) * (1 / 255))) (10 / 16777216)) ∧
+    (ChanRaw (fmul (yuvSums 16 128 y u v).2.2 k255) (idealB (((y : Int) - (16 : Nat) : Int) : Rat) (((u : Int) - (128 : Nat) : Int) : Rat) * (1 / 255)) (10 / 16777216) ∧
+      ChanOk (fclamp (fmul (yuvSums 16 128 y u v).2.2 k255) 0 one)
+      (clamp01 (idealB (((y : Int) - (16 : Nat) : Int) : Rat) (((u : Int) - (128 : Nat) : Int) : Rat) * (1 / 255))) (10 / 16777216)) :=
   f32_err 8 256 16 128 k255 y u v (8421505 / 2147483648) (1 / 255) (127 / 547608330240) (by decide) (by decide) (by decide)
     (by decide) hy hu hv k255_val.1 k255_val.2 (by decide +kernel) (by decide +kernel) (by decide +kernel)
     (by decide +kernel) (by decide +kernel) (by decide +kernel) (by decide +kernel) (by decide +kernel)
 
 /-- `yuv10::f32`, all inputs -/
 theorem f32_err10 (y u v : Nat) (hy : y < 1024) (hu : u < 1024) (hv : v < 1024) :
-    ChanOk (fclamp (fmul (yuvSums 64 512 y u v).1 k1023) 0 one)
-      (clamp01 (idealR (((y : Int) - (64 : Nat) : Int) : Rat) (((v : Int) - (512 : Nat) : Int) : Rat) * (1 / 1023))) (10 / 16777216) ∧
-    ChanOk (fclamp (fmul (yuvSums 64 512 y u v).2.1 k1023) 0 one)
+    (ChanRaw (fmul (yuvSums 64 512 y u v).1 k1023) (idealR (((y : Int) - (64 : Nat) : Int) : Rat) (((v : Int) - (512 : Nat) : Int) : Rat) * (1 / 1023)) (10 / 16777216) ∧
+      ChanOk (fclamp (fmul (yuvSums 64 512 y u v).1 k1023) 0 one)
+      (clamp01 (idealR (((y : Int) - (64 : Nat) : Int) : Rat) (((v : Int) - (512 : Nat) : Int) : Rat) * (1 / 1023))) (10 / 16777216)) ∧
+    (ChanRaw (fmul (yuvSums 64 512 y u v).2.1 k1023) (idealG (((y : Int) - (64 : Nat) : Int) : Rat) (((u : Int) - (512 : Nat) : Int) : Rat)
+        (((v : Int) - (512 : Nat) : Int) : Rat) * (1 / 1023)) (10 / 16777216) ∧
+      ChanOk (fclamp (fmul (yuvSums 64 512 y u v).2.1 k1023) 0 one)
       (clamp01 (idealG (((y : Int) - (64 : Nat) : Int) : Rat) (((u : Int) - (512 : Nat) : Int) : Rat)
-        (((v : Int) - (512 : Nat) : Int) : Rat) * (1 / 1023))) (10 / 16777216) ∧
-    ChanOk (fclamp (fmul (yuvSums 64 512 y u v).2.2 k1023) 0 one)
-      (clamp01 (idealB (((y : Int) - (64 : Nat) : Int) : Rat) (((u : Int) - (512 : Nat) : Int) : Rat) * (1 / 1023))) (10 / 16777216) :=
+        (((v : Int) - (512 : Nat) : Int) : Rat) * (1 / 1023))) (10 / 16777216)) ∧
+    (ChanRaw (fmul (yuvSums 64 512 y u v).2.2 k1023) (idealB (((y : Int) - (64 : Nat) : Int) : Rat) (((u : Int) - (512 : Nat) : Int) : Rat) * (1 / 1023)) (10 / 16777216) ∧
+      ChanOk (fclamp (fmul (yuvSums 64 512 y u v).2.2 k1023) 0 one)
+      (clamp01 (idealB (((y : Int) - (64 : Nat) : Int) : Rat) (((u : Int) - (512 : Nat) : Int) : Rat) * (1 / 1023))) (10 / 16777216)) :=
   f32_err 10 1024 64 512 k1023 y u v (1049601 / 1073741824) (1 / 1023) (1 / 1098437885952) (by decide) (by decide) (by decide)
     (by decide) hy hu hv k1023_val.1 k1023_val.2 (by decide +kernel) (by decide +kernel) (by decide +kernel)
     (by decide +kernel) (by decide +kernel) (by decide +kernel) (by decide +kernel) (by decide +kernel)
 
 /-- `yuv16::f32`, all inputs -/
 theorem f32_err16 (y u v : Nat) (hy : y < 65536) (hu : u < 65536) (hv : v < 65536) :
-    ChanOk (fclamp (fmul (yuvSums 4096 32768 y u v).1 k65535) 0 one)
-      (clamp01 (idealR (((y : Int) - (4096 : Nat) : Int) : Rat) (((v : Int) - (32768 : Nat) : Int) : Rat) * (1 / 65535))) (10 / 16777216) ∧
-    ChanOk (fclamp (fmul (yuvSums 4096 32768 y u v).2.1 k65535) 0 one)
+    (ChanRaw (fmul (yuvSums 4096 32768 y u v).1 k65535) (idealR (((y : Int) - (4096 : Nat) : Int) : Rat) (((v : Int) - (32768 : Nat) : Int) : Rat) * (1 / 65535)) (10 / 16777216) ∧
+      ChanOk (fclamp (fmul (yuvSums 4096 32768 y u v).1 k65535) 0 one)
+      (clamp01 (idealR (((y : Int) - (4096 : Nat) : Int) : Rat) (((v : Int) - (32768 : Nat) : Int) : Rat) * (1 / 65535))) (10 / 16777216)) ∧
+    (ChanRaw (fmul (yuvSums 4096 32768 y u v).2.1 k65535) (idealG (((y : Int) - (4096 : Nat) : Int) : Rat) (((u : Int) - (32768 : Nat) : Int) : Rat)
+        (((v : Int) - (32768 : Nat) : Int) : Rat) * (1 / 65535)) (10 / 16777216) ∧
+      ChanOk (fclamp (fmul (yuvSums 4096 32768 y u v).2.1 k65535) 0 one)
       (clamp01 (idealG (((y : Int) - (4096 : Nat) : Int) : Rat) (((u : Int) - (32768 : Nat) : Int) : Rat)
-        (((v : Int) - (32768 : Nat) : Int) : Rat) * (1 / 65535))) (10 / 16777216) ∧
-    ChanOk (fclamp (fmul (yuvSums 4096 32768 y u v).2.2 k65535) 0 one)
-      (clamp01 (idealB (((y : Int) - (4096 : Nat) : Int) : Rat) (((u : Int) - (32768 : Nat) : Int) : Rat) * (1 / 65535))) (10 / 16777216) :=
+        (((v : Int) - (32768 : Nat) : Int) : Rat) * (1 / 65535))) (10 / 16777216)) ∧
+    (ChanRaw (fmul (yuvSums 4096 32768 y u v).2.2 k65535) (idealB (((y : Int) - (4096 : Nat) : Int) : Rat) (((u : Int) - (32768 : Nat) : Int) : Rat) * (1 / 65535)) (10 / 16777216) ∧
+      ChanOk (fclamp (fmul (yuvSums 4096 32768 y u v).2.2 k65535) 0 one)
+      (clamp01 (idealB (((y : Int) - (4096 : Nat) : Int) : Rat) (((u : Int) - (32768 : Nat) : Int) : Rat) * (1 / 65535))) (10 / 16777216)) :=
   f32_err 16 65536 4096 32768 k65535 y u v (65537 / 4294967296) (1 / 65535) (1 / 281470681743360) (by decide) (by decide) (by decide)
     (by decide) hy hu hv k65535_val.1 k65535_val.2 (by decide +kernel) (by decide +kernel) (by decide +kernel)
     (by decide +kernel) (by decide +kernel) (by decide +kernel) (by decide +kernel) (by decide +kernel)
@@ -562,7 +585,7 @@ oracle's tolerance `τ + 2^-24`) -/
 theorem yuv8_f32_ok (y u v : Nat) (hy : y < 256) (hu : u < 256) (hv : v < 256) :
     yuvAll (nearF32 (10 / 16777216)) (Spec.yuv 8 y u v) (yuvTo 8 2 y u v) = true ∧
     yuvAll admissibleF32 (Spec.yuv 8 y u v) (yuvTo 8 2 y u v) = true := by
-  obtain ⟨h1, h2, h3⟩ := f32_err8 y u v hy hu hv
+  obtain ⟨⟨_, h1⟩, ⟨_, h2⟩, ⟨_, h3⟩⟩ := f32_err8 y u v hy hu hv
   have e : yuvTo 8 2 y u v = yuvF32 8 y u v := rfl
   rw [e, yuvF32_8, spec_yuv8]
   exact ⟨yuvAll_intro _ _ _ _ _ (nearF32_of _ _ _ _ h1 Rat.le_refl) (nearF32_of _ _ _ _ h2 Rat.le_refl)
@@ -572,7 +595,7 @@ theorem yuv8_f32_ok (y u v : Nat) (hy : y < 256) (hu : u < 256) (hv : v < 256) :
 /-- `yuv8::n16` = `f32` then `fp::n16`, ALL inputs: every code is admissible -/
 theorem yuv8_n16_ok (y u v : Nat) (hy : y < 256) (hu : u < 256) (hv : v < 256) :
     yuvAll (admissible 65535) (Spec.yuv 8 y u v) (yuvTo 8 1 y u v) = true := by
-  obtain ⟨h1, h2, h3⟩ := f32_err8 y u v hy hu hv
+  obtain ⟨⟨_, h1⟩, ⟨_, h2⟩, ⟨_, h3⟩⟩ := f32_err8 y u v hy hu hv
   have e : yuvTo 8 1 y u v = (yuvF32 8 y u v).map fpn16 := rfl
   rw [e, yuvF32_8, spec_yuv8]
   exact yuvAll_intro _ _ _ _ _ (fpn16_adm _ _ _ h1 tol_ok) (fpn16_adm _ _ _ h2 tol_ok) (fpn16_adm _ _ _ h3 tol_ok)
@@ -625,7 +648,7 @@ oracle's tolerance `τ + 2^-24`) -/
 theorem yuv10_f32_ok (y u v : Nat) (hy : y < 1024) (hu : u < 1024) (hv : v < 1024) :
     yuvAll (nearF32 (10 / 16777216)) (Spec.yuv 10 y u v) (yuvTo 10 2 y u v) = true ∧
     yuvAll admissibleF32 (Spec.yuv 10 y u v) (yuvTo 10 2 y u v) = true := by
-  obtain ⟨h1, h2, h3⟩ := f32_err10 y u v hy hu hv
+  obtain ⟨⟨_, h1⟩, ⟨_, h2⟩, ⟨_, h3⟩⟩ := f32_err10 y u v hy hu hv
   have e : yuvTo 10 2 y u v = yuvF32 10 y u v := rfl
   rw [e, yuvF32_10, spec_yuv10]
   exact ⟨yuvAll_intro _ _ _ _ _ (nearF32_of _ _ _ _ h1 Rat.le_refl) (nearF32_of _ _ _ _ h2 Rat.le_refl)
@@ -635,7 +658,7 @@ theorem yuv10_f32_ok (y u v : Nat) (hy : y < 1024) (hu : u < 1024) (hv : v < 102
 /-- `yuv10::n16` = `f32` then `fp::n16`, ALL inputs: every code is admissible -/
 theorem yuv10_n16_ok (y u v : Nat) (hy : y < 1024) (hu : u < 1024) (hv : v < 1024) :
     yuvAll (admissible 65535) (Spec.yuv 10 y u v) (yuvTo 10 1 y u v) = true := by
-  obtain ⟨h1, h2, h3⟩ := f32_err10 y u v hy hu hv
+  obtain ⟨⟨_, h1⟩, ⟨_, h2⟩, ⟨_, h3⟩⟩ := f32_err10 y u v hy hu hv
   have e : yuvTo 10 1 y u v = (yuvF32 10 y u v).map fpn16 := rfl
   rw [e, yuvF32_10, spec_yuv10]
   exact yuvAll_intro _ _ _ _ _ (fpn16_adm _ _ _ h1 tol_ok) (fpn16_adm _ _ _ h2 tol_ok) (fpn16_adm _ _ _ h3 tol_ok)
@@ -643,7 +666,7 @@ theorem yuv10_n16_ok (y u v : Nat) (hy : y < 1024) (hu : u < 1024) (hv : v < 102
 /-- `yuv10::n8` = `f32` then `fp::n8`, ALL inputs: every code is admissible -/
 theorem yuv10_n8_ok (y u v : Nat) (hy : y < 1024) (hu : u < 1024) (hv : v < 1024) :
     yuvAll (admissible 255) (Spec.yuv 10 y u v) (yuvTo 10 0 y u v) = true := by
-  obtain ⟨h1, h2, h3⟩ := f32_err10 y u v hy hu hv
+  obtain ⟨⟨_, h1⟩, ⟨_, h2⟩, ⟨_, h3⟩⟩ := f32_err10 y u v hy hu hv
   have e : yuvTo 10 0 y u v = (yuvF32 10 y u v).map fpn8 := rfl
   rw [e, yuvF32_10, spec_yuv10]
   exact yuvAll_intro _ _ _ _ _ (fpn8_adm _ _ _ h1 tol_ok) (fpn8_adm _ _ _ h2 tol_ok) (fpn8_adm _ _ _ h3 tol_ok)
@@ -665,7 +688,7 @@ oracle's tolerance `τ + 2^-24`) -/
 theorem yuv16_f32_ok (y u v : Nat) (hy : y < 65536) (hu : u < 65536) (hv : v < 65536) :
     yuvAll (nearF32 (10 / 16777216)) (Spec.yuv 16 y u v) (yuvTo 16 2 y u v) = true ∧
     yuvAll admissibleF32 (Spec.yuv 16 y u v) (yuvTo 16 2 y u v) = true := by
-  obtain ⟨h1, h2, h3⟩ := f32_err16 y u v hy hu hv
+  obtain ⟨⟨_, h1⟩, ⟨_, h2⟩, ⟨_, h3⟩⟩ := f32_err16 y u v hy hu hv
   have e : yuvTo 16 2 y u v = yuvF32 16 y u v := rfl
   rw [e, yuvF32_16, spec_yuv16]
   exact ⟨yuvAll_intro _ _ _ _ _ (nearF32_of _ _ _ _ h1 Rat.le_refl) (nearF32_of _ _ _ _ h2 Rat.le_refl)
@@ -675,7 +698,7 @@ theorem yuv16_f32_ok (y u v : Nat) (hy : y < 65536) (hu : u < 65536) (hv : v < 6
 /-- `yuv16::n16` = `f32` then `fp::n16`, ALL inputs: every code is admissible -/
 theorem yuv16_n16_ok (y u v : Nat) (hy : y < 65536) (hu : u < 65536) (hv : v < 65536) :
     yuvAll (admissible 65535) (Spec.yuv 16 y u v) (yuvTo 16 1 y u v) = true := by
-  obtain ⟨h1, h2, h3⟩ := f32_err16 y u v hy hu hv
+  obtain ⟨⟨_, h1⟩, ⟨_, h2⟩, ⟨_, h3⟩⟩ := f32_err16 y u v hy hu hv
   have e : yuvTo 16 1 y u v = (yuvF32 16 y u v).map fpn16 := rfl
   rw [e, yuvF32_16, spec_yuv16]
   exact yuvAll_intro _ _ _ _ _ (fpn16_adm _ _ _ h1 tol_ok) (fpn16_adm _ _ _ h2 tol_ok) (fpn16_adm _ _ _ h3 tol_ok)
@@ -683,9 +706,209 @@ theorem yuv16_n16_ok (y u v : Nat) (hy : y < 65536) (hu : u < 65536) (hv : v < 6
 /-- `yuv16::n8` = `f32` then `fp::n8`, ALL inputs: every code is admissible -/
 theorem yuv16_n8_ok (y u v : Nat) (hy : y < 65536) (hu : u < 65536) (hv : v < 65536) :
     yuvAll (admissible 255) (Spec.yuv 16 y u v) (yuvTo 16 0 y u v) = true := by
-  obtain ⟨h1, h2, h3⟩ := f32_err16 y u v hy hu hv
+  obtain ⟨⟨_, h1⟩, ⟨_, h2⟩, ⟨_, h3⟩⟩ := f32_err16 y u v hy hu hv
   have e : yuvTo 16 0 y u v = (yuvF32 16 y u v).map fpn8 := rfl
   rw [e, yuvF32_16, spec_yuv16]
   exact yuvAll_intro _ _ _ _ _ (fpn8_adm _ _ _ h1 tol_ok) (fpn8_adm _ _ _ h2 tol_ok) (fpn8_adm _ _ _ h3 tol_ok)
+
+/-! ### saturation -/
+
+theorem fclamp_hi (x : Nat) (h : FinP x) (hx : 1 < toRat x) : fclamp x 0 one = one := by
+  obtain ⟨a1, a2, a3, a4, a5⟩ := finP_flags x h
+  obtain ⟨h1, h2⟩ := h
+  have n0 : isNaN 0 = false := by decide
+  have n1 : isNaN one = false := by decide
+  have k0 : key 0 = 0 := by decide
+  have k1 : key one = 1065353216 := by decide
+  have hneg : ¬ 2147483648 ≤ x := by
+    intro hn
+    have := toRat_nonpos_of_neg x (by rw [a3]; simpa using hn)
+    grind
+  have hx' : x < 0x7F800000 := by omega
+  have hgt : 1065353216 < x := by
+    apply Nat.lt_of_not_le
+    intro hle
+    have := toRat_mono x one (by unfold one; omega) (by decide)
+    rw [toRat_one] at this
+    grind
+  have hk : key x = (x : Int) := by
+    unfold key; rw [a3]; simp [hneg]
+  have f1 : ¬ key x < 0 := by rw [hk]; omega
+  have hin : (if flt x 0 = true then 0 else x) = x := by
+    rw [flt_eq x 0 a1 n0, k0, decide_eq_false f1, if_neg Bool.false_ne_true]
+  have f2 : (1065353216 : Int) < (x : Int) := by omega
+  rw [fclamp_unfold, hin, flt_eq one x n1 a1, k1, hk, decide_eq_true f2, if_pos rfl]
+
+theorem fclamp_lo (x : Nat) (h : FinP x) (hx : toRat x < 0) : fclamp x 0 one = 0 := by
+  obtain ⟨a1, a2, a3, a4, a5⟩ := finP_flags x h
+  obtain ⟨h1, h2⟩ := h
+  have n0 : isNaN 0 = false := by decide
+  have k0 : key 0 = 0 := by decide
+  have hneg : 2147483648 ≤ x := by
+    apply Nat.le_of_not_lt
+    intro hn
+    have := toRat_nonneg_of_lt x (by omega)
+    grind
+  have hz : x ≠ 2147483648 := by
+    intro he
+    rw [he] at hx
+    have : toRat 2147483648 = 0 := toRat_signBit
+    rw [this] at hx
+    exact absurd hx (by decide)
+  have hk : key x = -((x - 2147483648 : Nat) : Int) := by
+    unfold key; rw [a3]; simp [hneg, signBit]
+  have f1 : key x < 0 := by rw [hk]; omega
+  have hin : (if flt x 0 = true then 0 else x) = 0 := by
+    rw [flt_eq x 0 a1 n0, k0, decide_eq_true f1, if_pos rfl]
+  have f2 : flt one 0 = false := by decide
+  rw [fclamp_unfold, hin, f2, if_neg Bool.false_ne_true]
+
+/-- saturation of one F32 channel and of the codes derived from it by `fp::n8` / `fp::n16` -/
+theorem sat_f32 (x : Nat) (raw : Rat) (h : ChanRaw x raw (10 / 16777216)) :
+    satOk 2 raw (fclamp x 0 one) = true ∧ satOk 1 raw (fpn16 (fclamp x 0 one)) = true ∧
+    satOk 0 raw (fpn8 (fclamp x 0 one)) = true := by
+  obtain ⟨fx, n1, n2⟩ := h
+  have e1 : fpn16 one = 65535 := by decide +kernel
+  have e2 : fpn16 0 = 0 := by decide +kernel
+  have e3 : fpn8 one = 255 := by decide +kernel
+  have e4 : fpn8 0 = 0 := by decide +kernel
+  unfold satOk
+  by_cases hhi : 1 + 1 / 1048576 ≤ raw
+  · have hx : 1 < toRat x := by grind
+    have hlo : ¬ raw ≤ -(1 / 1048576) := by grind
+    rw [fclamp_hi x fx hx, decide_eq_true hhi, decide_eq_false hlo, e1, e3]
+    decide
+  · by_cases hlo : raw ≤ -(1 / 1048576)
+    · have hx : toRat x < 0 := by grind
+      rw [fclamp_lo x fx hx, decide_eq_false hhi, decide_eq_true hlo, e2, e4]
+      decide
+    · rw [decide_eq_false hhi, decide_eq_false hlo]
+      simp
+
+/-- saturation of the direct path of `yuv8::n8` -/
+theorem sat_n8_direct (s : Nat) (fs : FinP s) (S Es : Rat) (hs : Near (toRat s) S Es) (hS1 : -1000 ≤ S) (hS2 : S ≤ 1000)
+    (hE : Es + 1024 / 33554432 ≤ 1 / 4096) :
+    satOk 0 (S * (1 / 255)) (toNatSat (fadd s half) 255) = true := by
+  obtain ⟨fh, vh⟩ := half_val
+  have k1024 : ((1024 : Nat) : Rat) = 1024 := rfl
+  unfold Near at hs
+  obtain ⟨s1, s2⟩ := hs
+  have hE0 : 0 ≤ Es := by grind
+  obtain ⟨ft, nt⟩ := fadd_ulp s half fs fh 10 1024 (by decide) (by decide)
+    (by rw [k1024, vh]; grind) (by rw [k1024, vh]; grind)
+  rw [k1024, vh] at nt
+  unfold Near at nt
+  obtain ⟨t1, t2⟩ := nt
+  generalize toRat s = sv at *
+  unfold satOk
+  by_cases hhi : 1 + 1 / 1048576 ≤ S * (1 / 255)
+  · have hlo : ¬ S * (1 / 255) ≤ -(1 / 1048576) := by grind
+    rw [decide_eq_true hhi, decide_eq_false hlo]
+    have ht : 255 < toRat (fadd s half) := by grind
+    rcases toNatSat_floor (fadd s half) 255 ft with ⟨hc, hle⟩ | ⟨n, hc, hn1, hn2⟩
+    · exfalso; grind
+    · have : 255 ≤ n := by
+        apply Nat.le_of_not_lt
+        intro hlt
+        have h254 : n + 1 ≤ 255 := by omega
+        have := Rat.natCast_le_natCast.mpr h254
+        rw [Rat.natCast_add] at this
+        have k255 : ((255 : Nat) : Rat) = 255 := rfl
+        have k1 : ((1 : Nat) : Rat) = 1 := rfl
+        rw [k255, k1] at this
+        grind
+      rw [hc, Nat.min_eq_left this]
+      decide
+  · by_cases hlo : S * (1 / 255) ≤ -(1 / 1048576)
+    · rw [decide_eq_false hhi, decide_eq_true hlo]
+      have ht : toRat (fadd s half) < 1 := by grind
+      rcases toNatSat_floor (fadd s half) 255 ft with ⟨hc, hle⟩ | ⟨n, hc, hn1, hn2⟩
+      · rw [hc]; decide
+      · have : n = 0 := by
+          apply Nat.eq_zero_of_not_pos
+          intro hpos
+          have := Rat.natCast_le_natCast.mpr (show 1 ≤ n from hpos)
+          have k1 : ((1 : Nat) : Rat) = 1 := rfl
+          rw [k1] at this
+          grind
+        rw [hc, this]; decide
+    · rw [decide_eq_false hhi, decide_eq_false hlo]
+      simp
+
+theorem raw_yuv8 (y u v : Nat) : Spec.yuvRaw 8 y u v =
+    (idealR (((y : Int) - (16 : Nat) : Int) : Rat) (((v : Int) - (128 : Nat) : Int) : Rat) * (1 / 255), idealG (((y : Int) - (16 : Nat) : Int) : Rat) (((u : Int) - (128 : Nat) : Int) : Rat) (((v : Int) - (128 : Nat) : Int) : Rat) * (1 / 255), idealB (((y : Int) - (16 : Nat) : Int) : Rat) (((u : Int) - (128 : Nat) : Int) : Rat) * (1 / 255)) := by
+  rw [← div_eq_mul_one_div, ← div_eq_mul_one_div, ← div_eq_mul_one_div]; rfl
+
+/-- `yuv8`, saturation at every precision, all inputs -/
+theorem yuv8_sat (y u v : Nat) (hy : y < 256) (hu : u < 256) (hv : v < 256) :
+    yuvAll (satOk 2) (Spec.yuvRaw 8 y u v) (yuvTo 8 2 y u v) = true ∧
+    yuvAll (satOk 1) (Spec.yuvRaw 8 y u v) (yuvTo 8 1 y u v) = true ∧
+    yuvAll (satOk 0) (Spec.yuvRaw 8 y u v) (yuvTo 8 0 y u v) = true := by
+  obtain ⟨⟨h1, _⟩, ⟨h2, _⟩, ⟨h3, _⟩⟩ := f32_err8 y u v hy hu hv
+  obtain ⟨a1, b1, c1⟩ := sat_f32 _ _ h1
+  obtain ⟨a2, b2, c2⟩ := sat_f32 _ _ h2
+  obtain ⟨a3, b3, c3⟩ := sat_f32 _ _ h3
+  have e2 : yuvTo 8 2 y u v = yuvF32 8 y u v := rfl
+  have e1 : yuvTo 8 1 y u v = (yuvF32 8 y u v).map fpn16 := rfl
+  have e0 : yuvTo 8 0 y u v = [toNatSat (fadd (yuvSums 16 128 y u v).1 half) 255,
+      toNatSat (fadd (yuvSums 16 128 y u v).2.1 half) 255, toNatSat (fadd (yuvSums 16 128 y u v).2.2 half) 255] := rfl
+  rw [e2, e1, e0, yuvF32_8, raw_yuv8]
+  refine ⟨yuvAll_intro _ _ _ _ _ a1 a2 a3, yuvAll_intro _ _ _ _ _ b1 b2 b3, ?_⟩
+  clear a1 a2 a3 b1 b2 b3 c1 c2 c3 h1 h2 h3
+  obtain ⟨fr, fg, fb, sr, sg, sb⟩ := sums_err 8 256 16 128 y u v (by decide) (by decide) (by decide) (by decide) hy hu hv
+  obtain ⟨c1, c2⟩ := int_bounds y 16 256 16 hy (by decide) (by decide)
+  obtain ⟨d1, d2⟩ := int_bounds u 128 256 2 hu (by decide) (by decide)
+  obtain ⟨e1', e2'⟩ := int_bounds v 128 256 2 hv (by decide) (by decide)
+  have k16 : ((16 : Nat) : Rat) = 16 := rfl
+  have k2 : ((2 : Nat) : Rat) = 2 := rfl
+  have k256 : ((256 : Nat) : Rat) = 256 := rfl
+  rw [k16, k256] at c1 c2
+  rw [k2, k256] at d1 d2 e1' e2'
+  rw [k256] at sr sg sb
+  generalize (((y : Int) - (16 : Nat) : Int) : Rat) = c at *
+  generalize (((u : Int) - (128 : Nat) : Int) : Rat) = d at *
+  generalize (((v : Int) - (128 : Nat) : Int) : Rat) = e' at *
+  exact yuvAll_intro _ _ _ _ _
+    (sat_n8_direct _ fr _ _ sr (by unfold idealR; grind) (by unfold idealR; grind) (by decide +kernel))
+    (sat_n8_direct _ fg _ _ sg (by unfold idealG; grind) (by unfold idealG; grind) (by decide +kernel))
+    (sat_n8_direct _ fb _ _ sb (by unfold idealB; grind) (by unfold idealB; grind) (by decide +kernel))
+
+theorem raw_yuv10 (y u v : Nat) : Spec.yuvRaw 10 y u v =
+    (idealR (((y : Int) - (64 : Nat) : Int) : Rat) (((v : Int) - (512 : Nat) : Int) : Rat) * (1 / 1023), idealG (((y : Int) - (64 : Nat) : Int) : Rat) (((u : Int) - (512 : Nat) : Int) : Rat) (((v : Int) - (512 : Nat) : Int) : Rat) * (1 / 1023), idealB (((y : Int) - (64 : Nat) : Int) : Rat) (((u : Int) - (512 : Nat) : Int) : Rat) * (1 / 1023)) := by
+  rw [← div_eq_mul_one_div, ← div_eq_mul_one_div, ← div_eq_mul_one_div]; rfl
+
+/-- `yuv10`, saturation at every precision, all inputs -/
+theorem yuv10_sat (y u v : Nat) (hy : y < 1024) (hu : u < 1024) (hv : v < 1024) :
+    yuvAll (satOk 2) (Spec.yuvRaw 10 y u v) (yuvTo 10 2 y u v) = true ∧
+    yuvAll (satOk 1) (Spec.yuvRaw 10 y u v) (yuvTo 10 1 y u v) = true ∧
+    yuvAll (satOk 0) (Spec.yuvRaw 10 y u v) (yuvTo 10 0 y u v) = true := by
+  obtain ⟨⟨h1, _⟩, ⟨h2, _⟩, ⟨h3, _⟩⟩ := f32_err10 y u v hy hu hv
+  obtain ⟨a1, b1, c1⟩ := sat_f32 _ _ h1
+  obtain ⟨a2, b2, c2⟩ := sat_f32 _ _ h2
+  obtain ⟨a3, b3, c3⟩ := sat_f32 _ _ h3
+  have e2 : yuvTo 10 2 y u v = yuvF32 10 y u v := rfl
+  have e1 : yuvTo 10 1 y u v = (yuvF32 10 y u v).map fpn16 := rfl
+  have e0 : yuvTo 10 0 y u v = (yuvF32 10 y u v).map fpn8 := rfl
+  rw [e2, e1, e0, yuvF32_10, raw_yuv10]
+  exact ⟨yuvAll_intro _ _ _ _ _ a1 a2 a3, yuvAll_intro _ _ _ _ _ b1 b2 b3, yuvAll_intro _ _ _ _ _ c1 c2 c3⟩
+
+theorem raw_yuv16 (y u v : Nat) : Spec.yuvRaw 16 y u v =
+    (idealR (((y : Int) - (4096 : Nat) : Int) : Rat) (((v : Int) - (32768 : Nat) : Int) : Rat) * (1 / 65535), idealG (((y : Int) - (4096 : Nat) : Int) : Rat) (((u : Int) - (32768 : Nat) : Int) : Rat) (((v : Int) - (32768 : Nat) : Int) : Rat) * (1 / 65535), idealB (((y : Int) - (4096 : Nat) : Int) : Rat) (((u : Int) - (32768 : Nat) : Int) : Rat) * (1 / 65535)) := by
+  rw [← div_eq_mul_one_div, ← div_eq_mul_one_div, ← div_eq_mul_one_div]; rfl
+
+/-- `yuv16`, saturation at every precision, all inputs -/
+theorem yuv16_sat (y u v : Nat) (hy : y < 65536) (hu : u < 65536) (hv : v < 65536) :
+    yuvAll (satOk 2) (Spec.yuvRaw 16 y u v) (yuvTo 16 2 y u v) = true ∧
+    yuvAll (satOk 1) (Spec.yuvRaw 16 y u v) (yuvTo 16 1 y u v) = true ∧
+    yuvAll (satOk 0) (Spec.yuvRaw 16 y u v) (yuvTo 16 0 y u v) = true := by
+  obtain ⟨⟨h1, _⟩, ⟨h2, _⟩, ⟨h3, _⟩⟩ := f32_err16 y u v hy hu hv
+  obtain ⟨a1, b1, c1⟩ := sat_f32 _ _ h1
+  obtain ⟨a2, b2, c2⟩ := sat_f32 _ _ h2
+  obtain ⟨a3, b3, c3⟩ := sat_f32 _ _ h3
+  have e2 : yuvTo 16 2 y u v = yuvF32 16 y u v := rfl
+  have e1 : yuvTo 16 1 y u v = (yuvF32 16 y u v).map fpn16 := rfl
+  have e0 : yuvTo 16 0 y u v = (yuvF32 16 y u v).map fpn8 := rfl
+  rw [e2, e1, e0, yuvF32_16, raw_yuv16]
+  exact ⟨yuvAll_intro _ _ _ _ _ a1 a2 a3, yuvAll_intro _ _ _ _ _ b1 b2 b3, yuvAll_intro _ _ _ _ _ c1 c2 c3⟩
 
 end Dds.YuvErr
